@@ -61,9 +61,44 @@ func hashStr(s string) uint64 {
 	return h
 }
 
+// outRoot is where run-time files go (VERIF_OUTROOT, default <root>/out).
+func outRoot() string {
+	if r := os.Getenv("VERIF_OUTROOT"); r != "" {
+		return r
+	}
+	return filepath.Join(root(), "out")
+}
+
+// evidenceDir is where the evidence file is written (VERIF_EVIDENCE_DIR,
+// default <root>/evidence).
+func evidenceDir() string {
+	if r := os.Getenv("VERIF_EVIDENCE_DIR"); r != "" {
+		return r
+	}
+	return filepath.Join(root(), "evidence")
+}
+
 func build(outDir string) string {
 	bin := filepath.Join(outDir, "checks.test")
-	cmd := exec.Command("go", "test", "-c", "-tags", "verif", "-o", bin, "./checks")
+	args := []string{"test", "-c", "-tags", "verif", "-o", bin}
+	if alt := os.Getenv("VERIF_REPO"); alt != "" {
+		// development aid: judge another copy of the repository (a scratch
+		// worktree holding a seeded change) without touching /repo
+		mod, err := os.ReadFile(filepath.Join(root(), "harness", "go.mod"))
+		if err != nil {
+			fatal2("%v", err)
+		}
+		alt, _ = filepath.Abs(alt)
+		m := strings.Replace(string(mod), "=> /repo", "=> "+alt, 1)
+		modfile := filepath.Join(outDir, "go.mod")
+		sum, _ := os.ReadFile(filepath.Join(root(), "harness", "go.sum"))
+		if os.WriteFile(modfile, []byte(m), 0o644) != nil || os.WriteFile(filepath.Join(outDir, "go.sum"), sum, 0o644) != nil {
+			fatal2("cannot write the alternate go.mod")
+		}
+		args = append(args, "-modfile", modfile)
+	}
+	args = append(args, "./checks")
+	cmd := exec.Command("go", args...)
 	cmd.Dir = filepath.Join(root(), "harness")
 	cmd.Env = goEnv()
 	var buf bytes.Buffer
@@ -166,12 +201,12 @@ func main() {
 		verifSeed = 1
 	}
 	start := time.Now()
-	outDir := filepath.Join(root(), "out", prop)
+	outDir := filepath.Join(outRoot(), prop)
 	_ = os.RemoveAll(outDir)
 	if err := os.MkdirAll(outDir, 0o755); err != nil {
 		fatal2("%v", err)
 	}
-	evPath := filepath.Join(root(), "evidence", prop+".json")
+	evPath := filepath.Join(evidenceDir(), prop+".json")
 	_ = os.MkdirAll(filepath.Dir(evPath), 0o755)
 	_ = os.Remove(evPath)
 	bin := build(outDir)
@@ -180,6 +215,10 @@ func main() {
 	jobs := append([]job{{name: "witnesses", test: "TestWitnesses", shards: [2]int{1, 1}, secs: [2]int{600, 1800}}}, spec.jobs...)
 	for _, j := range jobs {
 		if j.tier != "" && j.tier != tier {
+			continue
+		}
+		if j.name == "witnesses" && os.Getenv("VERIF_NOWITNESS") != "" {
+			// development aid (sensitivity trials): judge by generated search only
 			continue
 		}
 		n := j.shards[ti]
@@ -406,7 +445,7 @@ func main() {
 	fmt.Printf("check %s %s: %d evaluations, %d distinct non-trivial, %d violations, %.1fs\n", prop, tier, evals, int64(len(hashes))+bulk, len(violations), time.Since(start).Seconds())
 	if len(violations) > 0 {
 		seen := map[string]bool{}
-		keep := filepath.Join(root(), "out", "violations")
+		keep := filepath.Join(outRoot(), "violations")
 		_ = os.MkdirAll(keep, 0o755)
 		for i := range violations {
 			v := &violations[i]
@@ -436,7 +475,7 @@ func main() {
 }
 
 func replay(prop, path string) {
-	outDir := filepath.Join(root(), "out", prop+"-replay")
+	outDir := filepath.Join(outRoot(), prop+"-replay")
 	_ = os.MkdirAll(outDir, 0o755)
 	bin := build(outDir)
 	abs, err := filepath.Abs(path)
